@@ -530,6 +530,60 @@ class Body:
                 return _norm(['%s@bb%d.%d' % (rv['k'], d[1], d[2])] + toks)
         return None
 
+    def downcast_source(self, op, max_hops=20):
+        """Follow an operand through single-definition moves/copies until a
+        place with a Downcast projection: returns (local, variant, fields_after)
+        e.g. `move ((_21 as Ok).0)` -> (21, 'Ok', ['0']); None if not found."""
+        if op['k'] not in ('copy', 'move'):
+            return None
+        place = op['place']
+        for _ in range(max_hops):
+            for i, e in enumerate(place['p']):
+                if isinstance(e, dict) and 'downcast' in e:
+                    after = [str(x.get('n') if x.get('n') is not None else x.get('f')) for x in place['p'][i + 1:] if isinstance(x, dict) and 'f' in x]
+                    return place['l'], (e.get('n') or str(e['downcast'])), after
+            defs = [d for d in self.defs_of(place['l']) if d[0] in ('stmt', 'call')]
+            if len(defs) != 1 or defs[0][0] != 'stmt':
+                return None
+            rv = defs[0][3]['rv']
+            if rv['k'] in ('use', 'cast') and rv['op']['k'] in ('copy', 'move'):
+                place = rv['op']['place']
+            elif rv['k'] == 'ref':
+                place = rv['place']
+            else:
+                return None
+        return None
+
+    def discr_switches(self, local, cleanup=False):
+        """blocks whose switch tests discriminant(_local) (possibly behind derefs);
+        switches in cleanup blocks (open drops of drop elaboration) excluded"""
+        out = []
+        for bb, t in self.terms():
+            if t['k'] != 'switch' or bb not in self.live_blocks():
+                continue
+            if self.blocks[bb]['cleanup'] and not cleanup:
+                continue
+            l = op_bare_local(t['discr'])
+            if l is None:
+                continue
+            for d in self.defs_of(l):
+                if d[0] == 'stmt' and d[3]['rv']['k'] == 'discr' and d[3]['rv']['place']['l'] == local \
+                        and all(e == 'deref' for e in d[3]['rv']['place']['p']):
+                    out.append(bb)
+        return out
+
+    def variant_edge(self, sw_bb, idx):
+        """target of the edge a switch on an enum discriminant takes for variant idx"""
+        es = self.edges(sw_bb)
+        for d, lab in es:
+            if lab == 'sw:%d' % idx:
+                return d
+        # `otherwise` stands for idx when every other listed value differs
+        for d, lab in es:
+            if lab == 'otherwise':
+                return d
+        return None
+
     # ---- uses (forward) --------------------------------------------------
     def uses_of(self, local):
         """sites / statements that read `local` (any projection):
